@@ -6,9 +6,11 @@ pub mod c05;
 pub mod c06;
 pub mod c10;
 pub mod c12;
+pub mod c14;
 pub mod c16;
 pub mod dispatch;
 pub mod c07;
+pub mod c08;
 pub mod c09;
 pub mod calls;
 pub mod gen;
@@ -38,7 +40,7 @@ pub struct PropDef {
 }
 
 pub fn all_props() -> Vec<&'static PropDef> {
-    vec![&c01::DEF, &c02::DEF, &c03::DEF, &c03::DEF04, &c05::DEF, &c06::DEF, &c10::DEF, &c12::DEF, &c16::DEF, &c07::DEF, &c09::DEF]
+    vec![&c01::DEF, &c02::DEF, &c03::DEF, &c03::DEF04, &c05::DEF, &c06::DEF, &c10::DEF, &c12::DEF, &c14::DEF, &c16::DEF, &c07::DEF, &c08::DEF, &c09::DEF]
 }
 
 pub fn build_name() -> String {
